@@ -247,14 +247,14 @@ fn rand_maps<V: Gen>(rng: &mut Rng, w: u64) -> (M<V>, M<V>) {
     (x, y)
 }
 
-/// Two regions over the offset window -8..32 with cell sizes 1/2/4/8; the second shares part of the
+/// Two regions over the offset window -8..20 with cell sizes 1/2/4/8; the second shares part of the
 /// layout of the first (same cell, other value / other size / shifted / missing / extra cells).
 fn rand_regions<V: Gen>(rng: &mut Rng) -> (MemRegion<V>, MemRegion<V>) {
     let mut xc: Cells<V> = Vec::new();
     let mut yc: Cells<V> = Vec::new();
     let mut off: i64 = -8 + rng.range(0, 3);
-    while off < 32 {
-        let size = *rng.pick(&[1u64, 1, 2, 4, 8]);
+    while off < 20 {
+        let size = *rng.pick(&[1u64, 1, 1, 2, 4, 8]);
         let (a, b) = V::pair(rng, size);
         xc.push((off, a.clone()));
         match rng.below(10) {
@@ -280,7 +280,7 @@ pub fn gen(out: &mut Out, _sub: &str) {
         push(out, scalar_event(&x, &y));
     }
     for w in [2u64, 4, 8] {
-        for _ in 0..out.size(200, 6000) {
+        for _ in 0..out.size(100, 6000) {
             let (x, y) = rand_iv_pair(&mut rng, w);
             push(out, scalar_event(&x, &y));
         }
@@ -299,7 +299,7 @@ pub fn gen(out: &mut Out, _sub: &str) {
         let (x, y) = rand_data_pair(&mut rng, 1);
         push(out, scalar_event(&x, &y));
     }
-    for _ in 0..out.size(150, 4000) {
+    for _ in 0..out.size(60, 4000) {
         let (x, y) = rand_data_pair(&mut rng, 8);
         push(out, scalar_event(&x, &y));
     }
@@ -318,21 +318,21 @@ pub fn gen(out: &mut Out, _sub: &str) {
         // data domain values: Top is not the greatest element, the case MergeTop exists for (and
         // the one IntersectMergeStrategy documents as outside its contract)
         if strategy != "intersect" {
-            for _ in 0..out.size(150, 3000) {
-                let w = *rng.pick(&[1u64, 8]);
+            for _ in 0..out.size(80, 3000) {
+                let w = *rng.pick(&[1u64, 1, 8]);
                 let (x, y) = rand_maps::<Data>(&mut rng, w);
                 push(out, map_event(strategy, &x, &y));
             }
         }
     }
     // ---- memory regions ----------------------------------------------------------------------
-    for _ in 0..out.size(250, 5000) {
+    for _ in 0..out.size(70, 4000) {
         let (x, y) = rand_regions::<IntervalDomain>(&mut rng);
         push(out, region_event(&x, &y));
         let (x, y) = rand_regions::<Data>(&mut rng);
         push(out, region_event(&x, &y));
     }
-    for _ in 0..out.size(60, 1200) {
+    for _ in 0..out.size(40, 1200) {
         let (x, y) = rand_regions::<BitvectorDomain>(&mut rng);
         push(out, region_event(&x, &y));
     }
